@@ -997,6 +997,9 @@ class Interp:
 
     def membership(self, op, l, r, node):
         neg = isinstance(op, ast.NotIn)
+        if isinstance(r, (VList, VTuple)) and isinstance(l, (VNone, VStr)) and all(isinstance(x, (VNone, VStr, VInt, VFloat, VBool)) for x in r.items):
+            hit = any((isinstance(l, VNone) and isinstance(x, VNone)) or (isinstance(l, VStr) and isinstance(x, VStr) and l.s == x.s) for x in r.items)
+            return VBool(hit != neg)
         if isinstance(r, (VList, VTuple)) and isinstance(l, VInt) and all(isinstance(x, VInt) for x in r.items):
             any_unknown = False
             for x in r.items:
